@@ -99,6 +99,8 @@ func viaGoroutine(a string, b []byte) (r int, p any) {
 	return
 }
 
+var scratch vk.Scratch
+
 var sinkByte byte
 
 // dirtyStack leaves the byte v all over the stack area the next call will use:
@@ -140,6 +142,10 @@ func checkCmpUpto(a []byte, x Range) *vk.Failure {
 	want := sign(model.CmpBits(ab, bb))
 	ac := append([]byte(nil), a...)
 	ec := append([]byte(nil), e...)
+	reused := scratch.Reuse(vk.Hash64(a) + uint64(len(e)))
+	if reused {
+		ac = scratch.Bytes(a) // the plain key in a reused buffer with guarded spare capacity
+	}
 	var got int
 	if f := vk.Try(fmt.Sprintf("CmpUpto(%x, %x)", a, e), func() { got = bitstr.CmpUpto(ac, ec) }); f != nil {
 		return f
@@ -149,6 +155,11 @@ func checkCmpUpto(a []byte, x Range) *vk.Failure {
 	}
 	if string(ac) != string(a) || string(ec) != string(e) {
 		return vk.Failf("cmpupto-mutates", "CmpUpto modified an argument")
+	}
+	if reused {
+		if msg := scratch.Check(); msg != "" {
+			return vk.Failf("argument-spare-capacity-written", "CmpUpto: %s", msg)
+		}
 	}
 	// the string variant, from several call contexts
 	as := string(a) // heap copy
@@ -306,6 +317,9 @@ func flipBit(s []byte, k int) []byte {
 
 func genCmp(t *rapid.T) Case {
 	maxLen := vk.Pick(20, 64)
+	if gen.Chance(t, 1, 10, "long") {
+		maxLen = 300
+	}
 	s := gen.Bytes(t, 0, maxLen, "s")
 	x := genRange(t, s, "x")
 	var y Range
@@ -342,7 +356,10 @@ func genCmp(t *rapid.T) Case {
 }
 
 func genCmpUpto(t *rapid.T) Case {
-	maxLen := vk.Pick(20, 64)
+	maxLen := vk.Pick(40, 64)
+	if gen.Chance(t, 1, 10, "long") {
+		maxLen = 300
+	}
 	s := gen.Bytes(t, 0, maxLen, "s")
 	x := genRange(t, s, "x")
 	lo := int(x.From) / 8
